@@ -5,6 +5,19 @@ use sigverif::driver::{self, PropDef, Tier};
 #[global_allocator]
 static GLOBAL: alloc::CountingAlloc = alloc::CountingAlloc;
 
+// The executable's own definitions of write(2) and send(2) take precedence over the C library's
+// for every call made through the `libc` crate (the library under test included): attempts on
+// watched descriptors are counted (sysspy.rs), then the raw system call is made.
+#[no_mangle]
+pub unsafe extern "C" fn write(fd: libc::c_int, buf: *const libc::c_void, count: libc::size_t) -> libc::ssize_t {
+    sysspy::spy(fd, count, None);
+    libc::syscall(libc::SYS_write, fd, buf, count) as libc::ssize_t
+}
+#[no_mangle]
+pub unsafe extern "C" fn send(fd: libc::c_int, buf: *const libc::c_void, len: libc::size_t, flags: libc::c_int) -> libc::ssize_t {
+    sysspy::spy(fd, len, Some(flags));
+    libc::syscall(libc::SYS_sendto, fd, buf, len, flags, 0usize, 0usize) as libc::ssize_t
+}
 
 fn find(id: &str) -> &'static PropDef {
     match props().into_iter().find(|p| p.id == id) {
